@@ -81,4 +81,100 @@ structure PrintEquiv (j j' : List Day) : Prop where
   days : ∀ p ∈ j.zip j', DayPrintEquiv p.1 p.2
   padding : JournalPrinter.padding j = JournalPrinter.padding j'
 
+/-! ## Layouts: a journal written as a tree of files
+
+The constructive side of the property (`Properties/C05Layout.lean`, `C05_split`): take directives, distribute them in any
+way over the files of an include tree, write every file with the functions of `journal.Print`; the journal the commands
+load from the root is a permutation of the directives. -/
+
+/-- a directive as `journal.Print` writes it, with the line break that ends it (a blank line ends an assertion with
+several balances, as in `printAssertions`); `pad` is the column width of the posting lines -/
+def dirText (pad : Nat) : Directive → String
+  | .price p => JournalPrinter.printPrice p ++ "\n"
+  | .opening o => JournalPrinter.printOpen o ++ "\n"
+  | .closing c => JournalPrinter.printClose c ++ "\n"
+  | .tx t => JournalPrinter.printTx pad t ++ "\n"
+  | .assertion a => JournalPrinter.printAssertion a ++ "\n" ++ (if a.balances.length = 1 then "" else "\n")
+
+/-- an include directive: `include "<spelling>"` and a line break -/
+def incText (spelling : String) : String := "include \"" ++ spelling ++ "\"\n"
+
+mutual
+/-- a file of the layout: the path under which the loader reads it, and its items -/
+inductive LTree where
+  | node (path : Path) (items : LItems)
+/-- the items of a file in text order: a directive, or an include (its spelling in the text, the included file) -/
+inductive LItems where
+  | nil
+  | dir (x : Directive) (rest : LItems)
+  | inc (spelling : String) (child : LTree) (rest : LItems)
+end
+
+def LTree.path : LTree → Path
+  | .node p _ => p
+
+def LTree.items : LTree → LItems
+  | .node _ items => items
+
+/-- the items of a file from a plain list -/
+def LItems.ofList : List (Directive ⊕ (String × LTree)) → LItems
+  | [] => .nil
+  | .inl x :: rest => .dir x (LItems.ofList rest)
+  | .inr (sp, c) :: rest => .inc sp c (LItems.ofList rest)
+
+/-- the text of a file -/
+def LItems.text (pad : Nat) : LItems → String
+  | .nil => ""
+  | .dir x rest => dirText pad x ++ rest.text pad
+  | .inc sp _ rest => incText sp ++ rest.text pad
+
+/-- the directives written in the file itself, in text order -/
+def LItems.own : LItems → List Directive
+  | .nil => []
+  | .dir x rest => x :: rest.own
+  | .inc _ _ rest => rest.own
+
+/-- the includes of the file, in text order -/
+def LItems.incs : LItems → List (String × LTree)
+  | .nil => []
+  | .dir _ rest => rest.incs
+  | .inc sp c rest => (sp, c) :: rest.incs
+
+mutual
+/-- all files of the layout, depth first (the order of `Loader.load`) -/
+def LTree.nodes : LTree → List (Path × LItems)
+  | .node p items => (p, items) :: items.childNodes
+def LItems.childNodes : LItems → List (Path × LItems)
+  | .nil => []
+  | .dir _ rest => rest.childNodes
+  | .inc _ c rest => c.nodes ++ rest.childNodes
+end
+
+mutual
+/-- the directives in reading order: those of an included file where the `include` stands -/
+def LTree.reading : LTree → List Directive
+  | .node _ items => items.reading
+def LItems.reading : LItems → List Directive
+  | .nil => []
+  | .dir x rest => x :: rest.reading
+  | .inc _ c rest => c.reading ++ rest.reading
+end
+
+/-- the bytes of a text file -/
+def fileBytes (s : String) : Loader.Bytes := s.toUTF8.data.toList
+
+/-- the files on disk: path and content -/
+def LTree.files (pad : Nat) (t : LTree) : List (Path × Loader.Bytes) :=
+  t.nodes.map (fun n => (n.1, fileBytes (n.2.text pad)))
+
+/-- the file system that holds exactly the files of the layout -/
+def LTree.fs (pad : Nat) (t : LTree) : FileSys := FileSys.ofList (t.files pad)
+
+/-- all directives of the layout in the order the commands see them: file by file, depth first -/
+def LTree.journal (t : LTree) : List Directive := t.nodes.flatMap (fun n => n.2.own)
+
+/-- the include edges: including file, spelling of the path in its text, path of the included file -/
+def LTree.edges (t : LTree) : List (Path × String × Path) :=
+  t.nodes.flatMap (fun n => n.2.incs.map (fun i => (n.1, i.1, i.2.path)))
+
 end Knut.Layout
